@@ -230,6 +230,25 @@ func checkC17(c *km.Ctx) {
 	isInbound := func(v ssa.Value) bool { return derivesFromFormValue(v, "login_destination", 0) }
 	prefix := func(p string, pol bool) km.Prim {
 		return km.Prim{Name: map[bool]string{true: "", false: "!"}[pol] + "HasPrefix(x," + p + ")", Direct: func(f km.Fact) bool {
+			// x[0] == '/' is the same test as HasPrefix(x, "/")
+			if p == "/" && pol && f.Op == token.EQL {
+				var base, index ssa.Value
+				switch x := f.X.(type) {
+				case *ssa.Index: // string indexing in current go/ssa
+					base, index = x.X, x.Index
+				case *ssa.Lookup:
+					if !x.CommaOk {
+						base, index = x.X, x.Index
+					}
+				}
+				if base != nil {
+					if i, isI := km.ConstInt(index); isI && i == 0 && isInbound(base) {
+						if ch, isC := km.ConstInt(f.Y); isC && ch == '/' {
+							return true
+						}
+					}
+				}
+			}
 			cl, ok := f.X.(*ssa.Call)
 			if f.Op != token.ILLEGAL || f.Pol != pol || !ok || km.CalleeFull(cl.Common()) != "strings.HasPrefix" {
 				return false
